@@ -26,11 +26,14 @@ META = dict(
          "money lattice and average prices within half a logging unit. Bounded scope; position sizes before/after a fill are "
          "taken as the account reports them (their arithmetic is C03's).",
     note="Trusted: TLC, the recorder (wrappers around Order.__init__/execute/cancel, strategy callbacks), the JSON encoder. "
-         "Futures, cross margin, 1m routes, fee in {0, 1/1024, 1/2048}, integer quantities, prices on a tick lattice; a run "
+         "Futures with cross and isolated margin (liquidation orders are fills like any other: hook, trade, wallet), spot with the fee "
+         "taken from the base asset (hooks and trade fields; the wallet identity is claimed for futures only), routes 1m/5m/15m/1h with data "
+         "routes, both simulators, fee in {0, 1/1024, 1/2048}, prices on a tick lattice (1/20 tick with liquidations); fill times are "
+         "judged against the minute of the 1m candle being matched; a run "
          "ended by a jesse exception is judged as a prefix. Model: fee 0, one symbol, wallet relative to the cycle start.",
     design_ref="4/C06")
 
-KINDS_Q = ["ladder", "over", "sized", "fast2", "near", "wrong", "tf5", "fast", "two", "sized", "half", "fast2"]
+KINDS_Q = ["ladder", "over", "sized", "fast2", "near", "wrong", "tf5", "fast", "two", "iso", "half", "fast2", "spotfee", "tf15", "tf60", "iso"]
 
 
 def run(ctx):
@@ -43,20 +46,21 @@ def run(ctx):
                         "market orders: end of the last matched minute/chunk"]
     samples = []
     # ---------------------------------------------------------------- M
-    jobs = [("tree model, menus without wrong-side/oversize rows, all C06 invariants",
-             dict(depth=ctx.pick(9, 12), edit=1, invariants=K.INV_C06)),
-            ("repaired model (reduce-only replacement, clamped reduce-only fills), full menus, all C06 invariants",
-             dict(depth=ctx.pick(8, 10), multi=True, oversize=True, wrong=True, edit=ctx.pick(1, 2), maxord=8, rrepl=True, rclamp=True,
-                  invariants=K.INV_C06)),
-            # expected counter-examples of the tree model; each is replayed into the real code below
-            ("tree model, oversize reduce-only stop after a partial take-profit: TradeFaithful",
-             dict(depth=8, multi=True, oversize=True, edit=0, maxord=8, invariants=["TradeFaithful"])),
-            ("tree model, oversize reduce-only stop after a partial take-profit: WalletIdentity",
-             dict(depth=8, multi=True, oversize=True, edit=0, maxord=8, invariants=["WalletIdentity"])),
-            ("tree model, wrong-side oversize rows (flip): HooksFaithful",
-             dict(depth=8, multi=True, wrong=True, edit=0, maxord=8, invariants=["HooksFaithful"])),
-            ("tree model, wrong-side oversize rows (flip): NoLivelock",
-             dict(depth=8, multi=True, wrong=True, edit=0, maxord=20, invariants=["NoLivelock"]))]
+    FULL = dict(multi=True, oversize=True, wrong=True, maxord=8)
+    PRE = dict(rrepl=False, rclamp=False)
+    jobs = [("model of the tree (reduce-only replacement 5ca726f8, clamped reduce-only fills eed2d42c), full menus: two-point entries, "
+             "partial take-profits, oversize and wrong-side rows, edits in every hook; all C06 invariants",
+             dict(depth=ctx.pick(10, 12), edit=ctx.pick(1, 2), invariants=K.INV_C06, **FULL)),
+            ("model of the tree, one-point entries, deeper; all C06 invariants", dict(depth=ctx.pick(10, 13), edit=1, invariants=K.INV_C06)),
+            # the model of the tree BEFORE the two repairs: its counter-examples are replayed below and must NOT be reproduced any more
+            ("pre-fix model, oversize reduce-only stop after a partial take-profit: TradeFaithful",
+             dict(depth=8, multi=True, oversize=True, edit=0, maxord=8, invariants=["TradeFaithful"], **PRE)),
+            ("pre-fix model, oversize reduce-only stop after a partial take-profit: WalletIdentity",
+             dict(depth=8, multi=True, oversize=True, edit=0, maxord=8, invariants=["WalletIdentity"], **PRE)),
+            ("pre-fix model, wrong-side oversize rows (flip): HooksFaithful",
+             dict(depth=8, multi=True, wrong=True, edit=0, maxord=8, invariants=["HooksFaithful"], **PRE)),
+            ("pre-fix model, wrong-side oversize rows (flip): NoLivelock",
+             dict(depth=8, multi=True, wrong=True, edit=0, maxord=20, invariants=["NoLivelock"], **PRE))]
     rs = tlc.run_parallel([dict(module="StrategyLayer", cfg_text=K.model_cfg(**kw), workers=ctx.pick(2, 4), coverage=(i == 0),
                                 timeout=ctx.pick(600, 1500)) for i, (lab, kw) in enumerate(jobs)], max_procs=6)
     cex = []
@@ -71,9 +75,7 @@ def run(ctx):
     never = [a for a, (d, g) in rs[0].coverage.items() if g == 0 and a in ("Move", "Fill", "StepA", "StepB", "FlushOne", "Term1", "Term2", "Term3")]
     if never:
         raise Machinery("vacuity: actions never taken in the clean instance: %s" % never)
-    wit = K.witnesses(ctx, K.WIT_C06, **{k: v for k, v in jobs[0][1].items() if k != "invariants"})
-    wit.update(K.witnesses(ctx, K.WIT_C06_REPAIRED, **{k: v for k, v in jobs[1][1].items() if k != "invariants"}))
-    ctx.coverage["non_vacuity_witnesses_shortest_history"] = wit
+    ctx.coverage["non_vacuity_witnesses_shortest_history"] = K.witnesses(ctx, K.WIT_C06, **{k: v for k, v in jobs[0][1].items() if k != "invariants"})
     # ---------------------------------------------------------------- R
     items = [{"id": 100000 + j, "hist": h, "B": K.BASE, "src": "counter-example to %s" % inv, "compare": False}
              for j, (lab, inv, h) in enumerate(cex)]
@@ -83,10 +85,7 @@ def run(ctx):
     reproduced = len(ctx.violations) - before
     ctx.coverage["model_counterexamples"] = [{"instance": lab, "invariant": inv, "actions": [a["a"] for a in h]} for lab, inv, h in cex]
     ctx.coverage["model_counterexample_clauses_reproduced_by_the_code"] = reproduced
-    if cex and not reproduced:
-        ctx.notes.append("the tree model's counter-examples (oversize reduce-only close, flip) are not reproduced by the code: "
-                         "the code behaves like the repaired model")
-    hists, rsim = K.simulated_histories(ctx, ctx.pick(120, 1500), ctx.pick(12, 16), ctx.seed + 1, edit=1)
+    hists, rsim = K.simulated_histories(ctx, ctx.pick(120, 1500), ctx.pick(12, 16), ctx.seed + 1, edit=ctx.pick(1, 2), **FULL)
     sim_items = [{"id": 200000 + j, "hist": h, "B": K.BASE, "src": "simulated behaviour", "compare": True} for j, h in enumerate(hists)]
     sim_traces, sim_ids = K.run_replays(ctx, sim_items, compare=True)
     bad_r, st_r = K.judge(ctx, "TraceHooksTrades", sim_traces, "R-sim", sim_ids, parts=ctx.pick(4, 12))
@@ -97,7 +96,7 @@ def run(ctx):
                         "actions": [a["a"] for a in cex[0][2]],
                         "events": [{k: v for k, v in e.items() if k != "act"} for e in t0["ev"] if e["k"] in ("fillb", "hook", "fille", "end")][:16]})
     # ---------------------------------------------------------------- T
-    items = K.vivo_items(ctx, ctx.pick(144, 1500), KINDS_Q, ctx.pick(240, 400))
+    items = K.vivo_items(ctx, ctx.pick(160, 1500), KINDS_Q, ctx.pick(240, 400))
     traces, by_id = K.run_vivo(ctx, items)
     bad_t, st_t = K.judge(ctx, "TraceHooksTrades", traces, "T", by_id, parts=ctx.pick(8, 14))
     for t in traces + sim_traces:
